@@ -1,4 +1,5 @@
 import PyYetiVerif.Model.NasCards
+import PyYetiVerif.Model.NasCardsMulti
 import PyYetiVerif.Spec.NasFloatField
 /-! Line protocol for C12 (strings travel as hex of their code points < 256, doubles as decimal
 bit patterns).
@@ -14,6 +15,14 @@ bit patterns).
   d16 <bits>                  → `<format_double16>`
   wt8 | wt16 | wt16d <namehex> <tok>…   tok = `b` | `s<hex>` | `i<int>` | `f<bits>` → hex of text | `value-error`
   rd <keepName 0|1> <namehex> <texthex> → cards joined by `;`, values by `,`
+  tabs <hex>                  → hex of `s.expandtabs()`
+  fs <pathex> <texthex>       → `<linehex> <p>` | `none`      (`fsearch` from the start of the text)
+  wtx8 | wtx16 | wtx16d <namehex> <tok>…   tok as above or `x` (a field of an unsupported type)
+                              → hex of text | `value-error` | `type-error`
+  rdx <a|l|d> <f|i> <keepName 0|1> <keepComments 0|1> <blank: - | i<int> | f<bits> | s<hex>>
+      <matcher: p<namehex> | b<one 0/1 per line: the regex verdicts>> <texthex>
+                              → `nodata` | `L:` items `;`-joined (`c<vals>` | `m<hex>`) |
+                                `A:<rows>x<cols>:` rows | `D:` `key=vals` entries | `exc:IndexError` | `exc:ValueError`
   anything else → `bad-op` -/
 open PyYetiVerif.PyFloat PyYetiVerif.NasFloat PyYetiVerif.NasCards
 
@@ -60,6 +69,66 @@ def wt (f : Str → List Tok → Option Str) (nm : String) (ws : List String) : 
     | none => "value-error"
   | _, _ => "bad-op"
 
+def tokx? (w : String) : Option TokX :=
+  if w == "x" then some .bad else (tok? w).map .ok
+
+def showWt : WtResult → String
+  | .text t => tohex t
+  | .valueError => "value-error"
+  | .typeError => "type-error"
+
+def wtx (f : Str → List Tok → Option Str) (nm : String) (ws : List String) : String :=
+  match unhexS nm, ws.mapM tokx? with
+  | some name, some toks => showWt (wtcardX f name toks)
+  | _, _ => "bad-op"
+
+def showVals (c : List NasVal) : String := ",".intercalate (c.map showVal)
+
+def showItem : Item → String
+  | .card v => "c" ++ showVals v
+  | .comment r => "m" ++ tohex r
+
+def showRes : RdResult → String
+  | .noData => "nodata"
+  | .list items => "L:" ++ ";".intercalate (items.map showItem)
+  | .array n rows => s!"A:{rows.length}x{n}:" ++ ";".intercalate (rows.map showVals)
+  | .dict es => "D:" ++ ";".intercalate (es.map fun e => showVal e.1 ++ "=" ++ showVals e.2)
+  | .indexError => "exc:IndexError"
+  | .valueError => "exc:ValueError"
+
+def blank? (w : String) : Option (Option NasVal) :=
+  match w.toList with
+  | ['-'] => some none
+  | 's' :: h => (unhexS (String.ofList h)).map fun s => some (.str s)
+  | 'i' :: d => (String.ofList d).toInt?.map fun n => some (.int n)
+  | 'f' :: d => (String.ofList d).toNat?.map fun n => some (.flt n)
+  | _ => none
+
+/-- classify the lines with externally supplied matcher verdicts (one per line) -/
+def prepBits (keepC : Bool) : List Str → List Bool → List TLine
+  | [], _ => []
+  | l :: ls, bs =>
+    (if keepC && isCommentLine l then ⟨true, l, false⟩ else ⟨false, expandTabs l, bs.headD false⟩) ::
+      prepBits keepC ls bs.tail
+
+def rdx (rv dt k c bl mt tx : String) : String :=
+  let rv? : Option RetVar := match rv with
+    | "a" => some .array | "l" => some .list | "d" => some .dict | _ => none
+  let dt? : Option DType := match dt with
+    | "f" => some .float | "i" => some .int | _ => none
+  match rv?, dt?, blank? bl, unhexS tx with
+  | some rv, some dt, some bl, some text =>
+    let o : RdOpts := ⟨bl, rv, dt, k == "1", c == "1"⟩
+    let ls := fileLines text
+    match mt.toList with
+    | 'p' :: h => match unhexS (String.ofList h) with
+        | some name => showRes (rdcardsFull o (prefixMatch name) ls)
+        | none => "bad-op"
+    | 'b' :: bits =>
+        showRes (rdcardsT o (prepBits (effTolist o && o.keepComments) ls (bits.map (· == '1'))))
+    | _ => "bad-op"
+  | _, _, _, _ => "bad-op"
+
 def answer (line : String) : String :=
   match (line.splitOn " ").filter (· ≠ "") with
   | ["all", b] => match dbl? b with
@@ -99,6 +168,18 @@ def answer (line : String) : String :=
   | "wt8" :: nm :: ws => wt wtcard8 nm ws
   | "wt16" :: nm :: ws => wt wtcard16 nm ws
   | "wt16d" :: nm :: ws => wt wtcard16d nm ws
+  | "wtx8" :: nm :: ws => wtx wtcard8 nm ws
+  | "wtx16" :: nm :: ws => wtx wtcard16 nm ws
+  | "wtx16d" :: nm :: ws => wtx wtcard16d nm ws
+  | ["tabs", h] => match unhexS h with
+      | some s => tohex (expandTabs s)
+      | none => "bad-op"
+  | ["fs", ph, tx] => match unhexS ph, unhexS tx with
+      | some pat, some text => match fsearch pat (fileLines text) with
+          | some (l, p) => tohex l ++ " " ++ toString p
+          | none => "none"
+      | _, _ => "bad-op"
+  | ["rdx", rv, dt, k, c, bl, mt, tx] => rdx rv dt k c bl mt tx
   | ["rd", k, nm, tx] => match unhexS nm, unhexS tx with
       | some name, some text =>
         ";".intercalate ((rdcards name (k == "1") text).map fun c => ",".intercalate (c.map showVal))
